@@ -1218,3 +1218,13 @@ PROPS["C12"]["level_note"] += (' ' + _FDL_OS + 'C12_oracle_sound_partial: the ru
 PROPS["C12"]["partial_gap"] += (' Oracle soundness: the rules sweep_bound, post_claim_scan_incomplete and the liveness rule gap_wait_never_ends are NOT yet '
     'covered; the reply rules are covered only for applications that send request telegrams (a response telegram with the own source address from an '
     'application would be taken for a status reply).')
+PROPS["C12"]["level_note"] += (' C12_oracle_sound_sweep / C12_oracle_sound_claim_scan / C12_oracle_sound_safety (Proofs/C12OracleSound.v): also '
+    'R12_sweep_bound and R12_post_claim_scan_incomplete are never reported on a model transcript (all input histories, app_sends_data). '
+    'R12_sweep_bound is the end-to-end history form of C12_sweep_bound (token visits counted on the transcript, window restarted when NS changes, '
+    'on a claim token, on going back to listening / offline); the proof is a simulation between the monitor\'s visit counter / per-address marks and '
+    'the model\'s GAP state with visits_until as potential, driven by the whole-poll relation C12_poll_sweep_rel (one GAP step per GAP request and '
+    'per token of a visit, none otherwise; for all station states), for NS anywhere in 0..127 and successors changing during a sweep. With '
+    'app_sends_requests the only C12 rule that can still be reported on a model transcript is the liveness rule gap_wait_never_ends.')
+PROPS["C12"]["partial_gap"] += (' UPDATE: sweep_bound and post_claim_scan_incomplete are now covered (C12_oracle_sound_sweep, '
+    'C12_oracle_sound_claim_scan; 30 theorems in coq/Properties/C12.v); of the oracle-soundness chain only the liveness rule gap_wait_never_ends '
+    'remains open (needs exact tracking of pending_bytes / last_bus_activity against the monitor\'s l_ref / l_spur).')
